@@ -205,7 +205,8 @@ def run(tier, seed, log):
         results,
         "every ordered multigraph of each space x every membership list (all subsets in index order, two "
         "permuted full lists, the empty universe) x rfunc {None, <i>} x sort {None, i, -i, permutation}; "
-        "expected text computed line by line from the real neighbors(); non-trivial = non-empty universe "
+        "every rendering is preceded by two that fail part-way (rfunc at the last member, incomparable sort "
+        "keys); expected text computed line by line from the real neighbors(); non-trivial = non-empty universe "
         "and at least one link")
     rep.assumptions = ["edge classes of the two edge families (neighbors() raises on others by default)",
                        "sort keys are injective (no dependence on sort stability)",
